@@ -146,12 +146,15 @@ def c04(tier, seed):
         plans = [
             dict(scope="fmt3", mode="exhaustive", maxops=4, limit=3500, invariants=inv, props=["Act_C04_FirstRefStable"]),
             dict(scope="fmt3n", mode="simulate", num=300, depth=5, mc=True, mc_maxgens=2, invariants=inv),
+            dict(scope="fmt3", mode="simulate", num=40, depth=9, maxops=9, maxgens=6, limit=700, mc=False, tag="w"),
         ]
     else:
         plans = [
             dict(scope="fmt3", mode="exhaustive", maxops=5, invariants=inv, props=["Act_C04_FirstRefStable"]),
             dict(scope="fmt3n", mode="simulate", num=6000, depth=6, invariants=inv),
             dict(scope="fmt4", mode="simulate", num=6000, depth=5, invariants=inv),
+            dict(scope="fmt3", mode="simulate", num=400, depth=11, maxops=11, maxgens=7, limit=6000, mc=False, tag="w"),
+            dict(scope="fmt3n", mode="simulate", num=400, depth=10, maxops=10, maxgens=7, limit=4000, mc=False, tag="w"),
         ]
     history_campaign(
         out, "C04", plans,
@@ -225,8 +228,10 @@ generic(
         dict(scope="fmt3", mode="simulate", num=60, depth=5, limit=500, mc_maxgens=3, invariants=INV_C06, props=["Act_C06_AppendOnly"]),
         dict(scope="nest", mode="simulate", num=60, depth=7, limit=700, mc_maxgens=2, invariants=INV_C06, props=["Act_C06_AppendOnly"],
              variants=[{"names": "plain"}, {"names": "mixed", "autotick": False}]),
+        dict(scope="long", mode="simulate", num=6, depth=8, maxops=18, maxgens=40, limit=40, mc=False),
     ],
     thorough=[
+        dict(scope="long", mode="simulate", num=60, depth=14, maxops=24, maxgens=60, limit=400, mc=False),
         dict(scope="fmt3", mode="exhaustive", maxops=5, invariants=INV_C06, props=["Act_C06_AppendOnly"]),
         dict(scope="nest", mode="simulate", num=4000, depth=9, mc_maxgens=4, invariants=INV_C06, props=["Act_C06_AppendOnly"],
              variants=[{"names": "plain"}, {"names": "mixed", "autotick": False}, {"names": "unicode"}]),
@@ -253,8 +258,10 @@ generic(
         dict(scope="tree", mode="simulate", num=60, depth=8, limit=500, mc_maxgens=1, invariants=INV_C02),
         dict(scope="nest", mode="simulate", num=60, depth=8, limit=400, mc_maxgens=1, invariants=INV_C02),
         dict(scope="ign", mode="simulate", num=40, depth=7, limit=300, mc=False),
+        dict(scope="deep", mode="simulate", num=30, depth=8, maxops=12, maxgens=30, limit=300, mc=False),
     ],
     thorough=[
+        dict(scope="deep", mode="simulate", num=300, depth=10, maxops=14, maxgens=40, limit=3000, mc=False),
         dict(scope="tree", mode="simulate", num=400, depth=10, mc_maxgens=2, invariants=INV_C02),
         dict(scope="nest", mode="simulate", num=400, depth=10, mc_maxgens=3, invariants=INV_C02),
         dict(scope="ign", mode="simulate", num=300, depth=8, mc_maxgens=2, invariants=INV_C02),
@@ -272,8 +279,12 @@ generic(
         dict(scope="tree", mode="simulate", num=60, depth=8, limit=600, mc_maxgens=1, invariants=INV_C03, variants=[{"names": "plain"}, {"names": "mixed", "touch": True}]),
         dict(scope="nest", mode="simulate", num=60, depth=8, limit=400, mc_maxgens=1, invariants=INV_C03),
         dict(scope="ign", mode="simulate", num=40, depth=7, limit=300, mc=False),
+        dict(scope="deep", mode="simulate", num=30, depth=8, maxops=12, maxgens=30, limit=400, mc=False),
+        dict(scope="tiny", mode="exhaustive", maxops=4, limit=800, mc_maxgens=2, invariants=INV_C03),
     ],
     thorough=[
+        dict(scope="deep", mode="simulate", num=300, depth=10, maxops=14, maxgens=40, limit=4000, mc=False),
+        dict(scope="tiny", mode="exhaustive", maxops=5, mc_maxgens=2, invariants=INV_C03),
         dict(scope="tree", mode="simulate", num=500, depth=10, mc_maxgens=2, invariants=INV_C03, variants=[{"names": "plain"}, {"names": "mixed", "touch": True}, {"names": "xml"}]),
         dict(scope="nest", mode="simulate", num=400, depth=10, mc_maxgens=3, invariants=INV_C03),
         dict(scope="ign", mode="simulate", num=300, depth=8, mc_maxgens=2, invariants=INV_C03),
@@ -288,10 +299,12 @@ INV_C08 = ["Inv_C08_Partition", "Inv_C08_ChildRoot", "Inv_C08_Refs", "Inv_C08_Wh
 generic(
     "C08", "model_checking",
     quick=[
-        dict(scope="nest", mode="simulate", num=120, depth=9, limit=900, mc_maxgens=2, invariants=INV_C08),
+        dict(scope="nest", mode="simulate", num=120, depth=9, limit=700, mc_maxgens=2, invariants=INV_C08),
+        dict(scope="deep", mode="simulate", num=30, depth=8, maxops=12, maxgens=30, limit=500, mc=False),
     ],
     thorough=[
         dict(scope="nest", mode="simulate", num=800, depth=11, mc_maxgens=3, invariants=INV_C08),
+        dict(scope="deep", mode="simulate", num=300, depth=10, maxops=14, maxgens=40, limit=5000, mc_maxgens=12, invariants=INV_C08),
         dict(scope="fmt3n", mode="simulate", num=300, depth=6, mc_maxgens=3, invariants=INV_C08),
         dict(scope="ign", mode="simulate", num=300, depth=8, mc=False),
     ],
@@ -488,14 +501,18 @@ def c15(tier, seed):
     for layout in CC.LAYOUTS:
         for prior in priors:
             for names in namesets:
-                ref = CC.reference_run(layout, prior, names)
-                lines.append({"tid": "proto-%s-%d-%s" % (layout, prior, names), "i": 0, "kind": "protocol", "events": ref["events"], "order": ref["order"],
-                              "hists": ref["hists"], "atomic": ref["atomic"], "exit": ref["exit"]})
-                for k in range(ref["n"]):
-                    for mode in ("none", "partial", "full"):
-                        if mode == "partial" and ref["events"][k]["k"] != "write":
-                            continue
-                        cases.append((layout, prior, names, k, mode, ref))
+                for buffered in (False, True):
+                    ref = CC.reference_run(layout, prior, names, buffered=buffered)
+                    lines.append({"tid": "proto-%s-%d-%s-%s" % (layout, prior, names, "buf" if buffered else "raw"), "i": 0, "kind": "protocol", "events": ref["events"],
+                                  "order": ref["order"], "hists": ref["hists"], "atomic": ref["atomic"], "exit": ref["exit"], "buffered": buffered})
+                    for k in range(ref["n"]):
+                        kind = ref["events"][k]["k"]
+                        for mode in ("none", "partial", "full"):
+                            if buffered and (kind == "write" and mode != "none" or kind not in ("write", "flush", "close") and mode == "partial"):
+                                continue      # a buffered write call changes nothing on disk: one crash variant is enough
+                            if not buffered and mode == "partial" and kind != "write":
+                                continue
+                            cases.append((layout, prior, names, k, mode, ref))
     with Pool(16) as pool:
         crashed = pool.map(CC.crash_case, cases, chunksize=8)
     lines += crashed
@@ -503,7 +520,7 @@ def c15(tier, seed):
     for d in diags[:3]:
         out.machinery.append("trace validation stopped early: %s" % d["tail"][-1500:])
     from . import signatures
-    pclauses = ["P_C15_OldIntact", "P_C15_ChainLists", "P_C15_AllOrNothing", "P_C15_Loadable", "P_C15_Protocol", "P_C08_ChildFirst"]
+    pclauses = ["P_C15_OldIntact", "P_C15_ChainLists", "P_C15_AllOrNothing", "P_C15_Loadable", "P_C08_ChildFirst"]
     distinct = set()
     drift = collections.Counter()
     counts = collections.Counter()
@@ -512,7 +529,7 @@ def c15(tier, seed):
         if not v:
             continue
         if ln["kind"] == "crash":
-            distinct.add((ln["layout"], ln["prior"], ln["k"], ln["mode"]))
+            distinct.add((ln["layout"], ln["prior"], ln["k"], ln["mode"], ln.get("buffered")))
         for c in pclauses:
             if c in v:
                 counts[c] += 1
@@ -538,7 +555,8 @@ def c15(tier, seed):
     out.coverage["rule"] = (
         "fault = kill of `create ROOT -h md5` at its k-th file-system call (mkdir / open-for-write / each write / close / replace as issued by "
         "the manifest and chain writers, enumerated from an uninterrupted reference run), applied not at all, partially (writes) or fully, "
-        "for every k, on histories {flat, root+child, root+child+grandchild} x prior generations; after each crash the files are read "
+        "for every k, on histories {flat, root+child, root+child+grandchild} x prior generations, once with every write going straight to the file "
+        "(each write call a crash point) and once behind an io.BufferedWriter-like buffer (data reaches the file at flush / close only); after each crash the files are read "
         "independently and info, verify, create are run; MhlCommitTrace folds the specification's Apply over the recorded call prefix to "
         "predict the abstract file state and loader outcome (M) and evaluates the C15 predicates on the observed state (P). "
         "distinct_nontrivial = distinct (layout, prior, call index, mode)."
